@@ -41,8 +41,10 @@ fn pair_ok(a: &Node, b: &Node) -> bool {
 }
 
 //@ ob: C12.O1
+//@ rss: 0.9
+//@ time: 27
 //@ tier: quick
-//@ cap: 900
+//@ cap: 800
 //@ standins: vcoll
 //@ desc: KBucket::add into a built bucket of 2 nodes with distinct ids: ids stay pairwise distinct, length grows by at most one, a new id is appended at the tail, a known id is refreshed (moved to the tail with the new address) iff the incoming node is secure or both are insecure with the same IP, otherwise refused
 //@ bounds: bucket of 2 + 1 incoming, ids [0x80,b1,..] with symbolic b1, private IPs 10.0.0.x (symbolic x); unwind 21
@@ -81,8 +83,10 @@ fn c12_o1_kbucket_add_step() {
 }
 
 //@ ob: C12.O1b
+//@ rss: 0.6
+//@ time: 22
 //@ tier: quick
-//@ cap: 1200
+//@ cap: 800
 //@ standins: vcoll
 //@ desc: KBucket::add update rule with public IPs (secure and insecure ids): a known id is replaced iff incoming is BEP42-secure or (existing insecure and same IP); never two entries with one id
 //@ bounds: bucket of 1 + 1 incoming with the same id bytes, IPs from {8.8.8.8, 1.2.3.4}, symbolic BEP42 prefix and r; unwind 21; P: at most 4 distinct (ip, r) arguments
@@ -117,8 +121,10 @@ fn c12_o1b_kbucket_update_rule() {
 }
 
 //@ ob: C12.O2
+//@ rss: 9.3
+//@ time: 233
 //@ tier: quick
-//@ cap: 1500
+//@ cap: 800
 //@ standins: vcoll
 //@ desc: full bucket: 20 nodes created at symbolic non-decreasing instants plus a symbolic 'now': the newcomer is admitted iff the head (least recently seen) is older than 900 s; on eviction exactly the head goes and the newcomer is last; otherwise the bucket is unchanged
 //@ bounds: 20 concrete-id nodes, 21 symbolic time steps each <= 2000 s; unwind 22
@@ -187,7 +193,7 @@ fn direct_table(ns: Vec<Node>) -> RoutingTable {
 }
 
 //@ ob: C12.O3
-//@ tier: quick
+//@ tier: thorough
 //@ cap: 2400
 //@ standins: vcoll
 //@ desc: RoutingTable::add into a built one-bucket table of 2 entries satisfying Inv: afterwards no entry has the table's id, ids are pairwise distinct, the per-IP rule holds pairwise, size() = number of entries, is_empty() agrees, nodes() yields exactly the entries, every entry sits in the bucket of its distance; a fresh acceptable node is added
@@ -266,7 +272,7 @@ fn c12_o3_table_add_step() {
 }
 
 //@ ob: C14.O1
-//@ tier: quick
+//@ tier: thorough
 //@ cap: 1500
 //@ standins: vcoll
 //@ also: C12
@@ -521,7 +527,7 @@ fn c11_o3b_closest_cut_at_twenty() {
 }
 
 //@ ob: C12.O5
-//@ tier: quick
+//@ tier: thorough
 //@ cap: 2400
 //@ standins: vcoll
 //@ also: C20
